@@ -371,7 +371,10 @@ func join(a, b context, node parse.Node, nodeName string) context {
 	}
 
 	// A name is open, or was split, after the branch node if it is in any branch.
-	a.foreign = a.foreign || b.foreign
+	if len(b.foreign) > len(a.foreign) {
+		a.foreign = b.foreign
+	}
+	a.foreignTag = a.foreignTag || b.foreignTag
 	a.nameOpen = a.nameOpen || b.nameOpen
 	a.tagNameOpen = a.tagNameOpen || b.tagNameOpen
 	if a.endTagOpen != b.endTagOpen {
@@ -872,7 +875,7 @@ func mangle(c context, templateName string) string {
 	// The mangled name for the default context is the input templateName. The default
 	// context includes the content of all elements in which actions are sanitized like in
 	// a context without element.
-	if c.state == stateText && !c.element.split && !c.foreign {
+	if c.state == stateText && !c.element.split && c.foreign == "" {
 		plain := true
 		for _, name := range append([]string{c.element.name}, c.element.names...) {
 			if name == "" {
@@ -917,8 +920,11 @@ func mangle(c context, templateName string) string {
 	if c.endTagOpen != "" {
 		s += "_endTagOpen(" + c.endTagOpen + ")"
 	}
-	if c.foreign {
-		s += "_foreign"
+	if c.foreign != "" {
+		s += "_foreign(" + c.foreign + ")"
+	}
+	if c.foreignTag {
+		s += "_foreignTag"
 	}
 	if c.nameOpen {
 		s += "_nameOpen"
@@ -1276,6 +1282,7 @@ func (e *escaper) escapeTemplateBody(c, out context, t *template.Template) (cont
 		// known about names left open or split.
 		return out.eq(c1) && out.nameOpen == c1.nameOpen && out.tagNameOpen == c1.tagNameOpen &&
 			out.element.split == c1.element.split && out.element.attrSplit == c1.element.attrSplit && out.attr.split == c1.attr.split &&
+			out.endTagOpen == c1.endTagOpen && out.foreign == c1.foreign && out.foreignTag == c1.foreignTag &&
 			sameNames(out.element.names, c1.element.names) && sameNames(out.attr.names, c1.attr.names)
 	}
 	// We need to assume an output context so that recursive template calls
@@ -1323,6 +1330,7 @@ func (e *escaper) escapeText(c context, n *parse.TextNode) context {
 		// (A text node emptied by an earlier rewrite, e.g. one that held only a comment.)
 		return c
 	}
+	begun := c.endTagOpen
 	if c.endTagOpen != "" && c.state == stateSpecialElementBody {
 		if err := splitEndTag(c, s); err != nil {
 			return context{state: stateError, err: errorf(ErrBadHTML, n, 0, "%s", err)}
@@ -1336,6 +1344,11 @@ func (e *escaper) escapeText(c context, n *parse.TextNode) context {
 		if c.state == stateTag {
 			// (In an end tag, too: `</b{{if .C}}data-x="{{.V}}"{{end}}>` has no attribute.)
 			c.element.split = true
+			if name := c.element.name; name != "" && (strings.HasPrefix("svg", name) || strings.HasPrefix("math", name)) && !c.foreignTag {
+				// `<sv{{if .C}}{{end}}g>`: the name may become that of an svg or math element.
+				c.foreign = openForeign(c.foreign, name)
+				c.foreignTag = true
+			}
 			// For a browser the tag name goes on up to white space, "/" or ">", and quotes and
 			// "=" are part of it: what the transition functions would read as a quoted
 			// attribute value is not one, and for the rest of the tag quoted and unquoted
@@ -1369,19 +1382,35 @@ func (e *escaper) escapeText(c context, n *parse.TextNode) context {
 		i1 := i + nread
 		if c1.state != stateError {
 			// (The transition functions build their results from scratch.)
-			c1.foreign = c.foreign
+			c1.foreign, c1.foreignTag = c.foreign, c.foreignTag
 			if c.state == stateText && c1.state == stateTag {
 				// A tag has begun: s[:i1] ends with its name.
 				if lt := bytes.LastIndexByte(s[i:i1], '<'); lt >= 0 {
-					switch name := asciiLower(s[i+lt+1 : i1]); name {
-					case "svg", "math":
-						c1.foreign = true
-					case "/svg", "/math":
-						c1.foreign = false
+					switch name := asciiLower(s[i+lt+1 : i1]); {
+					case name == "svg" || name == "math":
+						c1.foreign = openForeign(c1.foreign, name)
+						c1.foreignTag = true
+					case name == "/svg" || name == "/math":
+						// Closes the innermost element of that name and what is open inside it; an
+						// end tag without a start tag is ignored, by browsers as well. (A list that
+						// is full stays as it is: how many elements are open is not known any more.)
+						if k := strings.LastIndex(c1.foreign, name[1:2]); k >= 0 && len(c1.foreign) < maxForeign {
+							c1.foreign = c1.foreign[:k]
+						}
+					case foreignBreakout[name]:
+						// A start tag that ends foreign content for an HTML parser.
+						c1.foreign = ""
 					}
 				}
 			}
-			if c.foreign && c.state == stateSpecialElementBody && (c.element.name == "script" || c.element.name == "style") && bytes.IndexByte(s[i:i1], '<') >= 0 {
+			if c.foreignTag && isInTag(c.state) && !isInTag(c1.state) {
+				// The start tag of the svg or math element ends: "/>" closes the element at once.
+				if i1 >= 2 && s[i1-1] == '>' && s[i1-2] == '/' && c1.foreign != "" && len(c1.foreign) < maxForeign {
+					c1.foreign = c1.foreign[:len(c1.foreign)-1]
+				}
+				c1.foreignTag = false
+			}
+			if c.foreign != "" && c.state == stateSpecialElementBody && (c.element.name == "script" || c.element.name == "style") && bytes.IndexByte(s[i:i1], '<') >= 0 {
 				return context{
 					state: stateError,
 					err:   errorf(ErrBadHTML, n, 0, `"<" in the content of a %s element inside svg or math, where browsers read it as markup: %.32q`, c.element.name, s[i:i1]),
@@ -1440,24 +1469,54 @@ func (e *escaper) escapeText(c context, n *parse.TextNode) context {
 		}
 		e.editTextNode(n, b.Bytes())
 	}
-	c.endTagOpen = openEndTag(c, s)
+	c.endTagOpen = openEndTag(c, begun, s)
 	// In stateTag the text ends with a letter or digit only directly after the tag name.
 	c.tagNameOpen = c.state == stateTag && asciiAlphaNum(s[len(s)-1])
 	c.nameOpen = c.state == stateAttrName || c.tagNameOpen
 	return c
 }
 
+// maxForeign bounds the list of open svg and math elements, which is part of the names of
+// the copies of called templates: a recursive template that opens one more at every level
+// must not get a new copy at every level.
+const maxForeign = 4
+
+// openForeign adds the element with the given name (or beginning of a name) to the list.
+func openForeign(list, name string) string {
+	if len(list) < maxForeign {
+		list += name[:1]
+	}
+	return list
+}
+
+// foreignBreakout holds the start tags that end foreign content for an HTML parser (HTML
+// standard 13.2.6.5; font only with a color, face or size attribute, which is left out).
+var foreignBreakout = map[string]bool{"b": true, "big": true, "blockquote": true, "body": true, "br": true, "center": true, "code": true, "dd": true, "div": true, "dl": true, "dt": true, "em": true, "embed": true,
+	"h1": true, "h2": true, "h3": true, "h4": true, "h5": true, "h6": true, "head": true, "hr": true, "i": true, "img": true, "li": true, "listing": true, "menu": true, "meta": true, "nobr": true, "ol": true,
+	"p": true, "pre": true, "ruby": true, "s": true, "small": true, "span": true, "strong": true, "strike": true, "sub": true, "sup": true, "table": true, "tt": true, "u": true, "ul": true, "var": true}
+
 // openEndTag returns the end of the text s, in lower case, if c is the body of a script or
 // style element and that end is the beginning of the element's end tag, and "" otherwise.
-// (In the body of a title or textarea element "<" is rewritten, so that a browser does
-// not see an end tag there either.)
-func openEndTag(c context, s []byte) string {
+// begun is what the text in front of the preceding template node had begun: a text that
+// only continues it ("<" + "/" + "script>") is taken together with it. (In the body of a
+// title or textarea element "<" is rewritten, so that a browser does not see an end tag
+// there either.)
+func openEndTag(c context, begun string, s []byte) string {
 	if c.state != stateSpecialElementBody || c.element.name != "script" && c.element.name != "style" {
 		return ""
 	}
 	full := "</" + c.element.name
+	low := asciiLower(s)
+	if begun == "?" {
+		// Any beginning is possible: a text that lies inside the end tag keeps it so.
+		if len(low) < len(full) && strings.Contains(full[1:], low) {
+			return "?"
+		}
+	} else if begun != "" && len(begun)+len(low) <= len(full) && full[len(begun):len(begun)+len(low)] == low {
+		return begun + low
+	}
 	for k := len(full); k > 0; k-- {
-		if k <= len(s) && asciiLower(s[len(s)-k:]) == full[:k] {
+		if k <= len(low) && low[len(low)-k:] == full[:k] {
 			return full[:k]
 		}
 	}
